@@ -713,6 +713,7 @@ static void restore_jmpbuf_rstack(struct mcount_thread_data *mtdp, unsigned long
 
 /* it's crazy to call vfork() concurrently */
 static int vfork_parent;
+static struct mcount_thread_data *vfork_mtdp;
 static int vfork_rstack_idx;
 static int vfork_record_idx;
 static struct mcount_ret_stack vfork_rstack;
@@ -722,6 +723,7 @@ static void prepare_vfork(struct mcount_thread_data *mtdp, struct mcount_ret_sta
 {
 	/* save original parent info */
 	vfork_parent = getpid();
+	vfork_mtdp = mtdp;
 	vfork_rstack_idx = mtdp->idx;
 	vfork_record_idx = mtdp->record_idx;
 
@@ -759,10 +761,12 @@ static struct mcount_ret_stack *restore_vfork(struct mcount_thread_data *mtdp,
 					      struct mcount_ret_stack *rstack)
 {
 	/*
-	 * On vfork, parent sleeps until child is exec'ed or exited.
-	 * So if it sees parent pid, that means child was done.
+	 * On vfork, the calling thread sleeps until child is exec'ed or
+	 * exited.  So if it sees parent pid, that means child was done.
+	 * The other threads of the parent keep running meanwhile and
+	 * must not take the saved state.
 	 */
-	if (getpid() == vfork_parent) {
+	if (mtdp == vfork_mtdp && getpid() == vfork_parent) {
 		/* flush tid cache */
 		mtdp->tid = 0;
 
@@ -771,6 +775,7 @@ static struct mcount_ret_stack *restore_vfork(struct mcount_thread_data *mtdp,
 		rstack = &mtdp->rstack[mtdp->idx - 1];
 
 		vfork_parent = 0;
+		vfork_mtdp = NULL;
 
 		mcount_memcpy4(&mtdp->shmem, &vfork_shmem, sizeof(vfork_shmem));
 
